@@ -4,13 +4,19 @@ from vcheck import *
 from areas.replfetcher import scenarios_from
 
 PROPS = ["C09"]
-PACKAGES = ["drv_net"]
+PACKAGES = ["drv_net", "drv_peers"]
 META = {"C09": {
-    "engine": "replication", "level": "model_checking",
+    "engine": "replication", "more_engines": ["network", "peers"], "level": "model_checking",
     "technique": "TLA+ model of periodic replication between 2-3 nodes over the per-address version lattice; TLC explores every divergence pattern and round order; each behaviour is replayed on real nodes wired in-process and validated by TLC (clauses + model as drift predicate)",
     "text": "Every initial divergence of one address (chunk / scratchpad versions / transaction sets / register op sets) between 2 (thorough: 3) neighbours and every order of the nodes' replication rounds is executed on REAL nodes: "
             "TriggerIntervalReplication, the Replicate handler with its closest-peers check, the replication fetcher, GetReplicatedRecord through handle_query and store_replicated_in_record all run unmodified; the harness only carries messages. "
-            "AcceptHeld/NoRegress/AdvertiseAll are judged per round, OnlyFromClose on spoofed advertisements (holder = receiver itself / unknown peer), Converge after two full cycles.",
+            "AcceptHeld/NoRegress/AdvertiseAll are judged per round, OnlyFromClose on spoofed advertisements (holder = receiver itself / unknown peer), Converge after two full cycles. "
+            "Second engine (specs/network): the composed network model -- per node the store content of up to 3 addresses + the fetcher model of C08 (INSTANCE ReplFetcher), between the nodes a BAG of "
+            "advertisement / fetch-request / answer messages delivered in ANY order or lost, fetch deadlines passing -- is model-checked exhaustively for 2 nodes and simulated for 3; every simulated "
+            "behaviour is replayed message by message on real nodes (drv_netw) and judged by NetworkTrace (AcceptHeld, NoRegress, ServeHeld, AdvertiseAll per step; Converge after Settle + two clean cycles). "
+            "Third engine (specs/peers): the bad-node accounting that decides which peers stay among a node's closest (issues within 300 s, 10 s gap, three of a kind, removal from the routing table, "
+            "told once, block list after the answer) is model-checked and its simulated behaviours are replayed on a real node (RecordNodeIssue handler, hook H10 for time); for C09 it judges that an "
+            "advertisement of a peer considered bad starts no fetch, its other clauses are reported as SPEC-DEVIATION only.",
     "note": "trusted: TLC; the harness transport (delivers every message, in order); replication throttles are reset through hook H4c instead of waiting 30-45 s; nodes have unset responsible range and spare capacity; "
             "the sender of an advertisement is identified by the holder field of the message, as in the code (a spoofed holder field of a close peer cannot be driven without a libp2p response channel)",
     "design_ref": "5 Area Replication"}}
@@ -39,11 +45,161 @@ def to_steps(s):
     return {"nodes": s["nodes"], "steps": steps, "family": fam}
 
 
+def network_stage(v, w, thorough, replay):
+    """Second engine: the composed network model (specs/network) -- message bag, any delivery order, loss, expiry."""
+    scn_path = os.path.join(w, "net-scenarios.ndjson")
+    if replay:
+        write_ndjson(scn_path, [replay["scenario"]])
+    else:
+        for cfg in ["MCNetwork.cfg", "MCNetwork_txs.cfg", "MCNetwork_pad.cfg"]:
+            mc = tlc("network", "MCNetwork", cfg, w, workers=8, timeout=3000)
+            v.add_model(mc)
+            if mc.violated:
+                v.violation("model:" + mc.violated, "the network model falsifies %s beyond the listed known finding (%s)" % (mc.violated, cfg), {"area": "network", "tlc": mc.error_text[:6000]})
+            never = [a for a in mc.actions_never_taken() if a in ("Update", "Interval", "Settle", "CInterval", "CDeliver", "Finish")]
+            if never:
+                raise ToolError("network model %s: actions never taken: %s" % (cfg, never))
+        neg = tlc("network", "MCNetwork", "MCNetwork_padneg.cfg", w, workers=4, timeout=600, coverage=False)
+        if neg.violated != "ConvergedWhenDone":
+            raise ToolError("the listed known finding C09-scratchpad-versions-indistinguishable is no longer present in the network model")
+        # liveness of the network model under its stated fairness assumptions, and the negative control (weaker fairness)
+        live = tlc("network", "MCNetwork", "MCNetworkLive.cfg" if thorough else "MCNetworkLive_quick.cfg", w, workers=8, timeout=3000, coverage=False, heap="12g")
+        v.add_model(live)
+        if live.violated:
+            v.violation("model:" + live.violated, "the network model does not converge under its fairness assumptions", {"area": "network", "tlc": live.error_text[:6000]})
+        weak = tlc("network", "MCNetwork", "MCNetworkLive_weak_quick.cfg", w, workers=4, timeout=1200, coverage=False)
+        if weak.violated != "EventuallyAgree":
+            raise ToolError("negative control of the network liveness check did not fail (got %s)" % weak.violated)
+        scns = []
+        for cfg, num in (("MCNetwork_sim.cfg", 400 if thorough else 45), ("MCNetwork_sim_pad.cfg", 150 if thorough else 15), ("MCNetwork_sim2.cfg", 300 if thorough else 30)):
+            sim = tlc("network", "MCNetwork", cfg, w, workers=1, simulate="num=%d" % num, depth=90, coverage=False, timeout=3000,
+                      extra=["-seed", str(seed())])
+            if sim.violated:
+                v.violation("model:" + sim.violated, "clause falsified on a simulated behaviour of the network model (%s)" % cfg, {"area": "network", "tlc": sim.error_text[:6000]})
+            scns += scenarios_from(sim)
+        write_ndjson(scn_path, scns)
+    scn_list = read_ndjson(scn_path)
+    trace = os.path.join(w, "net-trace.ndjson")
+    run_driver("drv_netw", ["--scenarios", scn_path, "--out", trace, "--work", os.path.join(w, "netnodes")], w, timeout=3400)
+    rep = validate_trace("network", "NetworkTrace", "NetworkTrace.cfg", trace, w, timeout=3400, heap="6g")
+    events = read_ndjson(trace)
+    run_of = {}
+    r = 0
+    for i, e in enumerate(events):
+        if e["ev"] == "Reset":
+            r = e["run"]
+        run_of[i] = r
+    kfs = {k["id"]: k for k in kf_for("C09")}
+    for x in rep["violations"]:
+        e = events[x["line"] - 1]
+        if x["clause"] == "Malformed":
+            raise ToolError("malformed network trace line %d" % x["line"])
+        v.violation(x["clause"], "network step %s at line %d: %s" % (e["ev"], x["line"], json.dumps({k: e[k] for k in e if k not in ("ev", "state")})[:500]),
+                    {"area": "network", "scenario": scn_list[run_of[x["line"] - 1] - 1], "event": {k: e[k] for k in e if k != "state"}})
+    for x in rep.get("known", []):
+        kf = kfs.get(x["kf"])
+        if kf is None:
+            v.violation(x["clause"], "matched finding %s is not listed as known" % x["kf"], {"area": "network", "scenario": scn_list[run_of[x["line"] - 1] - 1]})
+        else:
+            v.known_finding(kf, "network line %d" % x["line"])
+    for ln in rep.get("drift", []):
+        e = events[ln - 1]
+        v.drift.append({"engine": "network", "line": ln, "ev": e["ev"], "m": e.get("m"), "node": e.get("node")})
+    steps = [e for e in events if e["ev"] != "Reset"]
+    skipped = sum(1 for e in steps if e["ev"] == "Skipped")
+    if not replay and steps and skipped * 5 > len(steps):
+        raise ToolError("network driver could not follow %d of %d prescribed steps" % (skipped, len(steps)))
+    def sig(e):
+        st = e["state"]
+        return json.dumps([e["ev"], e.get("node"), (e.get("m") or {}).get("k"), [[[c.get("kind"), c.get("c"), c.get("ids"), c.get("ops")] for c in n] for n in st["content"]],
+                           st["fetchers"], sorted([m["k"], m["from"], m["to"], m["a"]] for m in st["msgs"])], sort_keys=True)
+    v.cov["evaluations"] += len(steps)
+    v.cov["distinct_nontrivial"] += len(set(sig(e) for e in steps if e["ev"] in ("Update", "Interval", "Deliver", "Drop", "Expire", "Settle", "Check")))
+    v.cov["traces_validated_against_impl"] += sum(1 for e in events if e["ev"] == "Reset")
+    v.cov["network_stats"] = rep.get("stats")
+    if scn_list:
+        v.cov["samples"].append({"engine": "network", "scenario": scn_list[0]})
+    return rep
+
+
+def peers_stage(v, w, thorough, replay):
+    """Third engine: bad-node accounting (specs/peers). Only C09_OnlyFromClose (an advertisement of a peer that was considered
+    bad and is out of the routing table causes no fetch) is a verdict of C09; the other clauses describe behaviour no listed
+    property speaks about and are reported as SPEC-DEVIATION lines and in the evidence file, never as violations."""
+    scn_path = os.path.join(w, "peer-scenarios.ndjson")
+    if replay:
+        write_ndjson(scn_path, [replay["scenario"]])
+    else:
+        mc = tlc("peers", "MCBadNode", "MCBadNode.cfg", w, workers=8, timeout=3000, coverage=False)
+        v.add_model(mc)
+        if mc.violated:
+            raise ToolError("the bad-node model falsifies its own clauses: %s\n%s" % (mc.violated, mc.error_text[:3000]))
+        for neg, inv in (("MCBadNode_neg_bad.cfg", "CanBecomeBad"), ("MCBadNode_neg_blocked.cfg", "CanBeBlocked")):
+            r = tlc("peers", "MCBadNode", neg, w, workers=4, timeout=600, coverage=False)
+            if r.violated != inv:
+                raise ToolError("bad-node model is vacuous: %s not reachable" % inv)
+        scns = []
+        for cfg, num, cap in (("MCBadNode_sim_hot.cfg", 200 if thorough else 30, 1500 if thorough else 150), ("MCBadNode_sim.cfg", 100 if thorough else 8, 1000 if thorough else 60)):
+            sim = tlc("peers", "MCBadNode", cfg, w, workers=1, simulate="num=%d" % num, depth=20, coverage=False, timeout=3000, extra=["-seed", str(seed())])
+            if sim.violated:
+                raise ToolError("the bad-node model falsifies its own clauses in simulation: %s" % sim.violated)
+            scns += scenarios_from(sim)[:cap]
+        write_ndjson(scn_path, scns)
+    scn_list = read_ndjson(scn_path)
+    trace = os.path.join(w, "peer-trace.ndjson")
+    run_driver("drv_peers", ["--scenarios", scn_path, "--out", trace, "--work", os.path.join(w, "peernodes")], w, timeout=3400)
+    rep = validate_trace("peers", "BadNodeTrace", "BadNodeTrace.cfg", trace, w, timeout=3400, heap="6g")
+    events = read_ndjson(trace)
+    run_of, void = {}, set()
+    r = 0
+    for i, e in enumerate(events):
+        if e["ev"] == "Reset":
+            r = e["run"]
+        if e["ev"] == "Void":
+            void.add(e["run"])
+        run_of[i] = r
+    deviations = []
+    for x in rep["violations"]:
+        e = events[x["line"] - 1]
+        rn = run_of[x["line"] - 1]
+        if rn in void:
+            continue
+        if x["clause"] == "Malformed":
+            raise ToolError("malformed peers trace line %d" % x["line"])
+        if x["clause"].startswith("C09_"):
+            v.violation(x["clause"], "an advertisement of a peer considered bad (out of the routing table) started %s fetch(es), line %d" % (e.get("fetches"), x["line"]),
+                        {"area": "peers", "scenario": scn_list[rn - 1], "event": e})
+        else:
+            deviations.append({"clause": x["clause"], "line": x["line"], "event": e})
+    for d in deviations[:5]:
+        log("SPEC-DEVIATION (no listed property) clause=%s line=%d %s" % (d["clause"], d["line"], json.dumps(d["event"])[:300]))
+    for ln in rep.get("drift", []):
+        if run_of[ln - 1] not in void:
+            v.drift.append({"engine": "peers", "line": ln, "ev": events[ln - 1]["ev"]})
+    steps = [e for e in events if e["ev"] not in ("Reset", "Void")]
+    v.cov["evaluations"] += len(steps)
+    v.cov["distinct_nontrivial"] += len(set(json.dumps([e["ev"], e.get("k"), e.get("d"), e["state"]], sort_keys=True) for e in steps))
+    v.cov["traces_validated_against_impl"] += sum(1 for e in events if e["ev"] == "Reset")
+    v.cov["peers_stats"] = rep.get("stats")
+    v.cov["peers_spec_deviations"] = len(deviations)
+    v.cov["peers_void_runs"] = len(void)
+    if scn_list:
+        v.cov["samples"].append({"engine": "peers", "scenario": scn_list[0]})
+
+
 def run(prop, tier, replay=None):
     v = Verdict(prop, tier, replaying=replay is not None)
     w = workdir(prop)
     thorough = tier == "thorough"
     scn_path = os.path.join(w, "scenarios.ndjson")
+    if replay and replay.get("area") == "network":
+        build(PACKAGES)
+        network_stage(v, w, thorough, replay)
+        return v.finish()
+    if replay and replay.get("area") == "peers":
+        build(PACKAGES)
+        peers_stage(v, w, thorough, replay)
+        return v.finish()
     if replay:
         write_ndjson(scn_path, [replay["scenario"]])
     else:
@@ -58,6 +214,12 @@ def run(prop, tier, replay=None):
         if not neg.violated:
             raise ToolError("the listed known finding C09-scratchpad-versions-indistinguishable is no longer present in the model")
         scns = [s for s in scns if any(x["ev"] == "Place" for x in s["steps"])]
+        # an advertisement from a peer the receiver knows but that is beyond its K closest (its routing table gets 30 more peers)
+        for fam, rec in (("chunk", {}), ("reg", {"ops": [1]}), ("txs", {"ids": [1]}), ("pad", {"c": 1, "content": 1})):
+            r = {"fam": fam, "slot": 1}
+            r.update(rec)
+            scns.append({"nodes": 2, "family": fam, "steps": [{"ev": "Place", "node": 1, "rec": r},
+                                                             {"ev": "Spoof", "from": 1, "to": 2, "holder": "far"}]})
         write_ndjson(scn_path, scns)
     build(PACKAGES)
     trace = os.path.join(w, "trace.ndjson")
@@ -95,7 +257,12 @@ def run(prop, tier, replay=None):
     v.cov["rule"] = "a case is one step (placement, spoofed advertisement, replication round, final check) on real nodes inside a TLC-generated scenario; distinct = distinct (family, step, node, resulting contents of all nodes)"
     v.cov["samples"] = [scn_list[0], scn_list[len(scn_list) // 2]] if scn_list else []
     v.cov["impl_stats"] = rep.get("stats")
-    v.cov["exhaustive"] = not replay
+    if not replay:
+        peers_stage(v, w, thorough, None)
+        network_stage(v, w, thorough, None)
+        v.cov["rule"] += "; network engine: a case is one step (record handed in, periodic replication, ONE message delivered or lost, a fetch deadline passing, settle, check) on real nodes inside a TLC-simulated behaviour of the network model; distinct = distinct (step, resulting contents, fetcher queues and message bag)"
+    v.cov["exhaustive"] = False
     v.assumptions = ["2 (thorough also 3) nodes, one address per scenario, version lattices: pad counters 1..2, subsets of 2 transactions / 2 register ops",
+                     "network engine: 2 nodes x 2 addresses exhaustively (<= 2 hand-ins, 2 replication runs, 1 loss, 1 expiry in the chaotic phase), 3 nodes x 3 addresses by simulation; convergence is required after the messages in flight are lost, the in-flight fetches have timed out and two clean cycles have run",
                      "every message is delivered (no loss) and the replication throttles are reset between rounds"]
     return v.finish()
